@@ -27,26 +27,26 @@ Import ListNotations.
 Local Open Scope Z_scope.
 
 Record ps_sub := mkSub {
-  su_key : bytes;          (* address of the coap_subscription_t, as stored in the file *)
-  su_tuple : bytes;        (* coap_addr_tuple_t of the session: identifies the session *)
-  su_token : bytes;
-  su_ck : bytes;           (* cache key (preimage) *)
-  su_pkt : bytes }.        (* the stored request *)
+  pss_key : bytes;          (* address of the coap_subscription_t, as stored in the file *)
+  pss_tuple : bytes;        (* coap_addr_tuple_t of the session: identifies the session *)
+  pss_token : bytes;
+  pss_ck : bytes;           (* cache key (preimage) *)
+  pss_pkt : bytes }.        (* the stored request *)
 
 Record ps_rsrc := mkRsrc {
-  rs_name : bytes;
-  rs_observable : bool;
-  rs_observe : Z;          (* r->observe *)
-  rs_subs : list ps_sub }. (* r->subscribers, head first (LL_PREPEND) *)
+  psr_name : bytes;
+  psr_observable : bool;
+  psr_observe : Z;          (* r->observe *)
+  psr_subs : list ps_sub }. (* r->subscribers, head first (LL_PREPEND) *)
 
 Record ps_cfg := mkCfg {
-  cf_dyn : bool; cf_obs : bool; cf_cnt : bool;    (* which files coap_persist_startup was given *)
-  cf_freq : Z;                                   (* save_freq *)
-  cf_la : Z; cf_lt : Z;                          (* sizeof coap_address_t / coap_addr_tuple_t *)
-  cf_listen : bytes;                             (* bind address of the (one) UDP endpoint *)
-  cf_proto : bytes;                              (* COAP_PROTO_UDP as stored: 01 00 00 00 *)
-  cf_unknown : bool;                             (* an unknown-resource handler is registered *)
-  cf_fuel : nat }.
+  psc_dyn : bool; psc_obs : bool; psc_cnt : bool;    (* which files coap_persist_startup was given *)
+  psc_freq : Z;                                   (* save_freq *)
+  psc_la : Z; psc_lt : Z;                          (* sizeof coap_address_t / coap_addr_tuple_t *)
+  psc_listen : bytes;                             (* bind address of the (one) UDP endpoint *)
+  psc_proto : bytes;                              (* COAP_PROTO_UDP as stored: 01 00 00 00 *)
+  psc_unknown : bool;                             (* an unknown-resource handler is registered *)
+  psc_fuel : nat }.
 
 (* coap_resource_init: r->observe = 2 *)
 Definition PS_OBSERVE0 := 2.
@@ -59,47 +59,47 @@ Definition ps_mem := list ps_rsrc.
 Fixpoint ps_find (name : bytes) (m : ps_mem) : option ps_rsrc :=
   match m with
   | [] => None
-  | r :: tl => if ps_beq name (rs_name r) then Some r else ps_find name tl
+  | r :: tl => if ps_beq name (psr_name r) then Some r else ps_find name tl
   end.
 
 Fixpoint ps_replace (r : ps_rsrc) (m : ps_mem) : ps_mem :=
   match m with
   | [] => []
-  | x :: tl => if ps_beq (rs_name r) (rs_name x) then r :: tl else x :: ps_replace r tl
+  | x :: tl => if ps_beq (psr_name r) (psr_name x) then r :: tl else x :: ps_replace r tl
   end.
 
 Fixpoint ps_remove (name : bytes) (m : ps_mem) : ps_mem :=
   match m with
   | [] => []
-  | x :: tl => if ps_beq name (rs_name x) then tl else x :: ps_remove name tl
+  | x :: tl => if ps_beq name (psr_name x) then tl else x :: ps_remove name tl
   end.
 
 Definition ps_live (m : ps_mem) : list bytes :=
-  flat_map (fun r => map su_key (rs_subs r)) m.
+  flat_map (fun r => map pss_key (psr_subs r)) m.
 
 (* coap_find_observer / coap_find_observer_cache_key *)
 Fixpoint ps_find_tok (tuple token : bytes) (l : list ps_sub) : option ps_sub :=
   match l with
   | [] => None
-  | s :: tl => if ps_beq tuple (su_tuple s) && ps_beq token (su_token s) then Some s
+  | s :: tl => if ps_beq tuple (pss_tuple s) && ps_beq token (pss_token s) then Some s
                else ps_find_tok tuple token tl
   end.
 
 Fixpoint ps_find_ck (tuple ck : bytes) (l : list ps_sub) : option ps_sub :=
   match l with
   | [] => None
-  | s :: tl => if ps_beq tuple (su_tuple s) && ps_beq ck (su_ck s) then Some s
+  | s :: tl => if ps_beq tuple (pss_tuple s) && ps_beq ck (pss_ck s) then Some s
                else ps_find_ck tuple ck tl
   end.
 
 Fixpoint ps_drop_key (key : bytes) (l : list ps_sub) : list ps_sub :=
   match l with
   | [] => []
-  | s :: tl => if ps_beq key (su_key s) then tl else s :: ps_drop_key key tl
+  | s :: tl => if ps_beq key (pss_key s) then tl else s :: ps_drop_key key tl
   end.
 
 Definition ps_obs_of (c : ps_cfg) (s : ps_sub) : ps_obs :=
-  mkObs (su_key s) (cf_proto c) (cf_listen c) (su_tuple s) (su_pkt s) None.
+  mkObs (pss_key s) (psc_proto c) (psc_listen c) (pss_tuple s) (pss_pkt s) None.
 
 (* a sub-program whose PS_FUEL result aborts everything *)
 Definition ps_guard {A} (p : ps_prog Z) (k : ps_prog (option A)) : ps_prog (option A) :=
@@ -111,12 +111,12 @@ Definition ps_when {A} (b : bool) (p : ps_prog Z) (k : ps_prog (option A)) : ps_
 (* track_observe_value call-out *)
 Definition ps_track {A} (c : ps_cfg) (name : bytes) (v : Z) (k : ps_prog (option A))
   : ps_prog (option A) :=
-  ps_when (cf_cnt c) (ps_cnt_track (cf_fuel c) name v) k.
+  ps_when (psc_cnt c) (ps_cnt_track (psc_fuel c) name v) k.
 
 (* observe_deleted call-out *)
 Definition ps_untrack_sub {A} (c : ps_cfg) (s : ps_sub) (k : ps_prog (option A))
   : ps_prog (option A) :=
-  ps_when (cf_obs c) (ps_obs_deleted (cf_la c) (cf_lt c) (cf_fuel c) (su_key s)) k.
+  ps_when (psc_obs c) (ps_obs_deleted (psc_la c) (psc_lt c) (psc_fuel c) (pss_key s)) k.
 
 Section Events.
   Variable app : bytes -> option (bytes * bool).
@@ -134,8 +134,8 @@ Section Events.
     | Some _ => PsRet (Some (m, []))
     | None =>
         let m' := m ++ [mkRsrc name observable PS_OBSERVE0 []] in
-        ps_when (cf_dyn c && observable)
-                (ps_dyn_added (cf_fuel c) (mkDyn (cf_proto c) name pkt))
+        ps_when (psc_dyn c && observable)
+                (ps_dyn_added (psc_fuel c) (mkDyn (psc_proto c) name pkt))
                 (PsRet (Some (m', [])))
     end.
 
@@ -152,13 +152,13 @@ Section Events.
     match ps_find name m with
     | None => PsRet (Some (m, []))
     | Some r =>
-        let notify := rs_observable r && negb (match rs_subs r with [] => true | _ => false end) in
-        let v := if notify then ps_next_observe (rs_observe r) else rs_observe r in
-        ps_when (notify && cf_cnt c && (v mod cf_freq c =? 0))
-                (ps_cnt_track (cf_fuel c) name v)
-        (ps_when (cf_dyn c || cf_cnt c)
-                 (ps_res_deleted (cf_fuel c) (cf_dyn c) (cf_cnt c) name)
-        (ps_untrack_all (rs_subs r)
+        let notify := psr_observable r && negb (match psr_subs r with [] => true | _ => false end) in
+        let v := if notify then ps_next_observe (psr_observe r) else psr_observe r in
+        ps_when (notify && psc_cnt c && (v mod psc_freq c =? 0))
+                (ps_cnt_track (psc_fuel c) name v)
+        (ps_when (psc_dyn c || psc_cnt c)
+                 (ps_res_deleted (psc_fuel c) (psc_dyn c) (psc_cnt c) name)
+        (ps_untrack_all (psr_subs r)
         (PsRet (Some (ps_remove name m, [])))))
     end.
 
@@ -166,26 +166,26 @@ Section Events.
     match ps_find name m with
     | None => PsRet (Some (m, []))
     | Some r =>
-        if negb (rs_observable r) then PsRet (Some (m, [])) else
-        match ps_find_tok tuple token (rs_subs r) with
-        | Some _ => PsRet (Some (m, [(tuple, token, rs_observe r)]))
+        if negb (psr_observable r) then PsRet (Some (m, [])) else
+        match ps_find_tok tuple token (psr_subs r) with
+        | Some _ => PsRet (Some (m, [(tuple, token, psr_observe r)]))
         | None =>
-            let old := ps_find_ck tuple ck (rs_subs r) in
+            let old := ps_find_ck tuple ck (psr_subs r) in
             let subs1 := match old with
-                         | Some o => ps_drop_key (su_key o) (rs_subs r)
-                         | None => rs_subs r
+                         | Some o => ps_drop_key (pss_key o) (psr_subs r)
+                         | None => psr_subs r
                          end in
-            let m1 := ps_replace (mkRsrc name true (rs_observe r) subs1) m in
+            let m1 := ps_replace (mkRsrc name true (psr_observe r) subs1) m in
             let s := mkSub (alloc (ps_live m1)) tuple token ck pkt in
-            let m2 := ps_replace (mkRsrc name true (rs_observe r) (s :: subs1)) m in
+            let m2 := ps_replace (mkRsrc name true (psr_observe r) (s :: subs1)) m in
             (match old with
              | Some o => ps_untrack_sub c o
              | None => fun k => k
              end)
-            (ps_when (cf_obs c)
-                     (ps_obs_added (cf_la c) (cf_lt c) (cf_fuel c) (ps_obs_of c s))
-            (ps_track c name (rs_observe r)
-            (PsRet (Some (m2, [(tuple, token, rs_observe r)])))))
+            (ps_when (psc_obs c)
+                     (ps_obs_added (psc_la c) (psc_lt c) (psc_fuel c) (ps_obs_of c s))
+            (ps_track c name (psr_observe r)
+            (PsRet (Some (m2, [(tuple, token, psr_observe r)])))))
         end
     end.
 
@@ -193,17 +193,17 @@ Section Events.
     match ps_find name m with
     | None => PsRet (Some (m, []))
     | Some r =>
-        if negb (rs_observable r) then PsRet (Some (m, [])) else
-        let hit := match ps_find_tok tuple token (rs_subs r) with
+        if negb (psr_observable r) then PsRet (Some (m, [])) else
+        let hit := match ps_find_tok tuple token (psr_subs r) with
                    | Some s => Some s
-                   | None => ps_find_ck tuple ck (rs_subs r)
+                   | None => ps_find_ck tuple ck (psr_subs r)
                    end in
         match hit with
         | None => PsRet (Some (m, []))
         | Some s =>
             ps_untrack_sub c s
-              (PsRet (Some (ps_replace (mkRsrc name true (rs_observe r)
-                                               (ps_drop_key (su_key s) (rs_subs r))) m, [])))
+              (PsRet (Some (ps_replace (mkRsrc name true (psr_observe r)
+                                               (ps_drop_key (pss_key s) (psr_subs r))) m, [])))
         end
     end.
 
@@ -211,33 +211,33 @@ Section Events.
     match ps_find name m with
     | None => PsRet (Some (m, []))
     | Some r =>
-        match rs_observable r, rs_subs r with
+        match psr_observable r, psr_subs r with
         | true, _ :: _ =>
-            let v := ps_next_observe (rs_observe r) in
-            ps_when (cf_cnt c && (v mod cf_freq c =? 0))
-                    (ps_cnt_track (cf_fuel c) name v)
-              (PsRet (Some (ps_replace (mkRsrc name true v (rs_subs r)) m,
-                            map (fun s => (su_tuple s, su_token s, v)) (rs_subs r))))
+            let v := ps_next_observe (psr_observe r) in
+            ps_when (psc_cnt c && (v mod psc_freq c =? 0))
+                    (ps_cnt_track (psc_fuel c) name v)
+              (PsRet (Some (ps_replace (mkRsrc name true v (psr_subs r)) m,
+                            map (fun s => (pss_tuple s, pss_token s, v)) (psr_subs r))))
         | _, _ => PsRet (Some (m, []))
         end
     end.
 
   Inductive ps_event :=
-  | EvPut (name : bytes) (observable : bool) (pkt : bytes)
-  | EvDel (name : bytes)
-  | EvReg (name tuple token ck pkt : bytes)
-  | EvCancel (name tuple token ck : bytes)
-  | EvNotify (name : bytes)
-  | EvRaw (p : ps_prog Z).       (* a direct call of one updater (used by the tie only) *)
+  | PsEvPut (name : bytes) (observable : bool) (pkt : bytes)
+  | PsEvDel (name : bytes)
+  | PsEvReg (name tuple token ck pkt : bytes)
+  | PsEvCancel (name tuple token ck : bytes)
+  | PsEvNotify (name : bytes)
+  | PsEvRaw (p : ps_prog Z).       (* a direct call of one updater (used by the tie only) *)
 
   Definition ps_ev (e : ps_event) (m : ps_mem) : ps_prog ps_result :=
     match e with
-    | EvPut n o p => ps_ev_put n o p m
-    | EvDel n => ps_ev_del n m
-    | EvReg n t k ck p => ps_ev_reg n t k ck p m
-    | EvCancel n t k ck => ps_ev_cancel n t k ck m
-    | EvNotify n => ps_ev_notify n m
-    | EvRaw p => ps_guard p (PsRet (Some (m, [])))
+    | PsEvPut n o p => ps_ev_put n o p m
+    | PsEvDel n => ps_ev_del n m
+    | PsEvReg n t k ck p => ps_ev_reg n t k ck p m
+    | PsEvCancel n t k ck => ps_ev_cancel n t k ck m
+    | PsEvNotify n => ps_ev_notify n m
+    | PsEvRaw p => ps_guard p (PsRet (Some (m, [])))
     end.
 
   Fixpoint ps_hist (l : list ps_event) (m : ps_mem) (sent : list ps_send) : ps_prog ps_result :=
@@ -255,10 +255,10 @@ Section Events.
 
   (* dynamic resources: re-create what is missing through the application's handler *)
   Definition ps_dyn_step (r : ps_dyn) (m : ps_mem) : option ps_mem :=
-    match ps_find (dy_name r) m with
+    match ps_find (psd_name r) m with
     | Some _ => Some m
     | None =>
-        match app (dy_pkt r) with
+        match app (psd_pkt r) with
         | None => None
         | Some (name, observable) =>
             match ps_find name m with
@@ -274,53 +274,53 @@ Section Events.
     | (k, v) :: tl =>
         ps_set_counts tl
           match ps_find k m with
-          | Some r => ps_replace (mkRsrc k (rs_observable r) (v mod 16777216) (rs_subs r)) m
+          | Some r => ps_replace (mkRsrc k (psr_observable r) (v mod 16777216) (psr_subs r)) m
           | None => m
           end
     end.
 
   (* coap_persist_observe_add_lkd for one stored record; yields the key of the subscription *)
   Definition ps_obs_step (r : ps_obs) (m : ps_mem) : ps_prog (ps_mem * option bytes) :=
-    if negb (ps_beq (ob_proto r) (cf_proto c)) then PsRet (m, None) else
-    if negb (ps_beq (ob_listen r) (cf_listen c)) then PsRet (m, None) else
-    match req (ob_pkt r) with
+    if negb (ps_beq (pso_proto r) (psc_proto c)) then PsRet (m, None) else
+    if negb (ps_beq (pso_listen r) (psc_listen c)) then PsRet (m, None) else
+    match req (pso_pkt r) with
     | None => PsRet (m, None)
     | Some (name, token, ck) =>
         match ps_find name m with
         | None => PsRet (m, None)
         | Some rs =>
-            if negb (rs_observable rs) then PsRet (m, None) else
-            match ps_find_tok (ob_tuple r) token (rs_subs rs) with
-            | Some s => PsRet (m, Some (su_key s))
+            if negb (psr_observable rs) then PsRet (m, None) else
+            match ps_find_tok (pso_tuple r) token (psr_subs rs) with
+            | Some s => PsRet (m, Some (pss_key s))
             | None =>
-                let subs1 := match ps_find_ck (ob_tuple r) ck (rs_subs rs) with
-                             | Some o => ps_drop_key (su_key o) (rs_subs rs)
-                             | None => rs_subs rs
+                let subs1 := match ps_find_ck (pso_tuple r) ck (psr_subs rs) with
+                             | Some o => ps_drop_key (pss_key o) (psr_subs rs)
+                             | None => psr_subs rs
                              end in
-                let m1 := ps_replace (mkRsrc name true (rs_observe rs) subs1) m in
-                let s := mkSub (alloc (ps_live m1)) (ob_tuple r) token ck (ob_pkt r) in
-                let m2 := ps_replace (mkRsrc name true (rs_observe rs) (s :: subs1)) m in
+                let m1 := ps_replace (mkRsrc name true (psr_observe rs) subs1) m in
+                let s := mkSub (alloc (ps_live m1)) (pso_tuple r) token ck (pso_pkt r) in
+                let m2 := ps_replace (mkRsrc name true (psr_observe rs) (s :: subs1)) m in
                 (* observe_added / observe_deleted are not installed yet; track_observe_value is *)
-                if cf_cnt c then
-                  ps_bind (ps_cnt_track (cf_fuel c) name (rs_observe rs)) (fun _ =>
-                    PsRet (m2, Some (su_key s)))
-                else PsRet (m2, Some (su_key s))
+                if psc_cnt c then
+                  ps_bind (ps_cnt_track (psc_fuel c) name (psr_observe rs)) (fun _ =>
+                    PsRet (m2, Some (pss_key s)))
+                else PsRet (m2, Some (pss_key s))
             end
         end
     end.
 
   Definition ps_startup (m0 : ps_mem) : ps_prog (option ps_mem) :=
-    ps_bind (if cf_dyn c && cf_unknown c then ps_dyn_load (cf_fuel c) ps_dyn_step m0
+    ps_bind (if psc_dyn c && psc_unknown c then ps_dyn_load (psc_fuel c) ps_dyn_step m0
              else PsRet (Some m0)) (fun r1 =>
     match r1 with
     | None => PsRet None
     | Some m1 =>
-        ps_bind (if cf_cnt c then ps_cnt_load (cf_fuel c) (cf_freq c) else PsRet (Some [])) (fun r2 =>
+        ps_bind (if psc_cnt c then ps_cnt_load (psc_fuel c) (psc_freq c) else PsRet (Some [])) (fun r2 =>
         match r2 with
         | None => PsRet None
         | Some cnts =>
             let m2 := ps_set_counts cnts m1 in
-            if cf_obs c then ps_obs_load (cf_la c) (cf_lt c) (cf_fuel c) ps_obs_step m2
+            if psc_obs c then ps_obs_load (psc_la c) (psc_lt c) (psc_fuel c) ps_obs_step m2
             else PsRet (Some m2)
         end)
     end).
